@@ -15,7 +15,7 @@ RULE = ("inputs = (Sid, overlay, route): Sids = per type one concrete, one searc
         "invalid, '*', '>', ~valid, ~invalid, empty), deeper keys x (valid, ~valid), foreign key, unknown key}; routes = "
         "Sid(s?q), get_with(query=q), get_with(**kw) incl. None for existing/absent keys and the key=/value= form. "
         "distinct = distinct (uri, query) ; non-trivial = overlay changes at least one field or is refused.")
-ASSUMPTIONS = ["query values contain no URL metacharacters / control characters", "blank values (k=) are dropped by the query "
+ASSUMPTIONS = ["query values contain no URL metacharacters; the only control character is a url-encoded trailing newline", "blank values (k=) are dropped by the query "
                "syntax (urllib parse_qsl) in both model and implementation"]
 
 
@@ -43,6 +43,8 @@ def pair_menu(ref, typ, d):
         valid = vals[0] if vals else d[k]
         for v in (valid, "bogus!", "*", ">", "~" + valid, "~bogus!", ""):
             menu.append((k, v))
+        if k == keys[-1] or k == keys[0]:
+            menu.append((k, d[k] + "%0A"))      # a valid value followed by an (url-encoded) newline: an invalid value
     deeper = [k for k in chain if k not in keys]
     # "deeper" = the keys that follow the last key in the basetype's chain
     for k in deeper[:2]:
@@ -149,7 +151,7 @@ def cases(ref, k):
                     continue
                 q = "&".join(f"{kk}={vv}" for kk, vv in combo)
                 yield ("q", s, forced, q)
-                if not any(v.startswith("~") for _, v in combo):
+                if not any(v.startswith("~") or "%" in v for _, v in combo):
                     yield ("kw", s, forced, dict(combo))
         # None overlays
         chain = list(d) + [kk for kk in ref.key_types.get(ref.basetype(t), []) if kk not in d][:1] + ["bogus"]
@@ -161,7 +163,7 @@ def cases(ref, k):
                     yield ("kw", s, forced, {kk: None, k2: v2})
         for kk, vv in menu:
             if not vv.startswith("~"):
-                yield ("kv", s, forced, {kk: vv})
+                yield ("kv", s, forced, {kk: vv.replace("%0A", "\n")})
 
 
 def check_case(ref, case):
